@@ -139,6 +139,9 @@ def run(ctx) -> None:
     ctx.rule("R2", "in every command template each placeholder is exactly one token")
     ctx.rule("R3", "values are wired unmodified: message/tag/path from update down to the placeholder")
     shapes.cli_option_rule(ctx, "R3", ["--commit-message", "--tag-message"])
+    ctx.rule("R4", "prerequisite: 'each staged path exactly the configured path' - the keys of the file patterns (they are what is staged) are the configured paths as written (C03/R6)")
+    from sa.report import run_prerequisite
+    run_prerequisite(ctx, "C03", ("R6",), "R4")
 
     vcs = prog.module("vcs")
     callfn = prog.function("vcs.VCSAPI.__call__")
